@@ -644,3 +644,14 @@ def ob_g(ob):
         else:
             ob.verdict(v, lab)
     expect_refuted(ob, A[2] == (Em + 3 * A[1]) / x, assm, "A_3 with factor 3 instead of 2")
+
+
+# ---- shared obligation: the two-centre integrals use the MOPAC floor on h_pp; the derivative kernel and the energy kernel must be fed the same multipole parameters ----
+from . import C01 as _C01_mod  # noqa: E402
+
+
+@obligation(PID, "h", title="[shared with C01.b] " + [e for e in __import__("engine.ob", fromlist=["REGISTRY"]).REGISTRY["C01"] if e[1] is _C01_mod.ob_b][0][3])
+def ob_h_shared(ob):
+    """the two-centre integrals use the MOPAC floor on h_pp; the derivative kernel and the energy kernel must be fed the same multipole parameters"""
+    ob.note("this obligation is the one registered as C01.b; it is also decided here because the two-centre integrals use the MOPAC floor on h_pp; the derivative kernel and the energy kernel must be fed the same multipole parameters")
+    _C01_mod.ob_b(ob)
